@@ -368,7 +368,7 @@ func (x *Explorer) Explore(prune bool) Report {
 		ex := x.runOne(prefix)
 		if ex.Diverged {
 			// retry a few times: residual nondeterminism (map order) may reorder arrivals
-			for r := 0; r < 15 && ex.Diverged; r++ {
+			for r := 0; r < 80 && ex.Diverged; r++ {
 				x.finish()
 				ex = x.runOne(prefix)
 			}
